@@ -319,8 +319,7 @@ def run_sharded(mod, ctx: Ctx, max_examples: int, shards: int) -> Stats:
     import multiprocessing as mp
 
     per = max(1, math.ceil(max_examples / shards))
-    if hasattr(mod, "warmup"):
-        mod.warmup()
+    safe_warmup(mod)
     total = Stats()
     if shards == 1:
         res = [_shard_entry((mod.__name__, ctx, 0, per, ()))]
@@ -332,6 +331,15 @@ def run_sharded(mod, ctx: Ctx, max_examples: int, shards: int) -> Stats:
             raise HarnessError(r[1])
         total.merge(r)
     return total
+
+
+def safe_warmup(mod):
+    """JIT / import warm-up before forking; a property failure here is left for the real run to report"""
+    if hasattr(mod, "warmup"):
+        try:
+            mod.warmup()
+        except Violation:
+            pass
 
 
 def pool_map(fn, items, procs=16, chunksize=1):
